@@ -5,6 +5,7 @@ package main
 
 import (
 	"fmt"
+	"math"
 	"sort"
 	"strconv"
 	"strings"
@@ -1133,7 +1134,27 @@ func opTypeOf(h *Hist) {
 // genSearch draws a value to look for: an element, a scalar, a bound container, or a fresh container
 // that is structurally equal to nothing by identity.
 func (h *Hist) genSearch(vals []MVal) (any, MVal, bool) {
-	switch k := h.d.Draw("search-kind", 6); {
+	switch k := h.d.Draw("search-kind", 7); {
+	case k == 6 && len(vals) > 0:
+		// the closest other value of the same kind: the next float, the int one above
+		v := vals[h.d.Draw("search-elem", len(vals))]
+		switch v.K {
+		case KFloat:
+			if !math.IsInf(v.F, 0) {
+				m := mFloat(math.Nextafter(v.F, math.Inf(1)))
+				h.counters["probe:search-nearly-equal-float"]++
+				return m.goValue(), m, false
+			}
+		case KInt:
+			if v.I != math.MaxInt {
+				m := mInt(v.I + 1)
+				return m.goValue(), m, false
+			}
+		case KString:
+			m := mString(v.S + " ")
+			return m.goValue(), m, false
+		}
+		return v.goValue(), v, false
 	case k <= 2 && len(vals) > 0:
 		v := vals[h.d.Draw("search-elem", len(vals))]
 		return v.goValue(), v, false
@@ -2330,4 +2351,192 @@ func opNewDeep(h *Hist) {
 	if h.bindResult(root, l, h.curOwner) {
 		h.tracef("%s := NewList(chain of %d nested containers)", root.Name, depth+1)
 	}
+}
+
+// opBurst repeats one mutator many times on one container (heavy-tailed count): growth far past the usual size,
+// long drains after growth, many removals from one object. Implementations that change strategy after N operations
+// or at a capacity/occupancy threshold (shrinking, compaction, batching) are only reached this way.
+// Every sub-step is checked on the target (content and returned identity); the whole heap is checked at the end.
+func opBurst(h *Hist) {
+	n := h.pickAny()
+	if n == nil {
+		return
+	}
+	m := 4 + h.d.Draw("burst-n", 12)
+	switch h.d.Draw("burst-tail", 6) {
+	case 0:
+		m = 20 + h.d.Draw("burst-n-long", 60)
+	case 1:
+		m = 60 + h.d.Draw("burst-n-very-long", 120)
+	}
+	var kinds []string
+	if n.IsObj {
+		kinds = []string{"Set-new-keys", "Unset-one-by-one", "Set-then-Unset", "Unset-pairs"}
+	} else {
+		kinds = []string{"Add", "Pop", "Delete-first", "Delete-middle", "Insert-front", "Add-then-drain", "Add-then-Delete-first"}
+	}
+	kind := kinds[h.d.Draw("burst-kind", len(kinds))]
+	h.begin("Burst", h.ownerOf(n)...)
+	h.touch(n)
+	h.counters["probe:burst-"+kind]++
+	h.tracef("%s: burst %s x%d", n.Name, kind, m)
+	step := func(op string, f func() any, model func()) bool {
+		h.curOp = op
+		var ret any
+		p, msg := h.call(func() { ret = f() })
+		if !h.mustNotPanic(p, msg) {
+			return false
+		}
+		model()
+		h.checkRet(ret, n)
+		if h.dead {
+			return false
+		}
+		if mm := h.checkNode(n); mm != nil {
+			h.fail("result", op, h.curOwner, fmt.Sprintf("during a burst of %s (x%d): %s", kind, m, mm.msg))
+			return false
+		}
+		return true
+	}
+	addOne := func(i int) bool {
+		mv := mInt(1000 + i)
+		if i%5 == 4 {
+			mv = mString("b" + strconv.Itoa(i))
+		}
+		return step("Add", func() any { return n.list().Add(mv.goValue()) }, func() { n.Elems = append(n.Elems, mv) })
+	}
+	delAt := func(idx func() int) bool {
+		if len(n.Elems) == 0 {
+			return false
+		}
+		i := idx()
+		return step("Delete", func() any { return n.list().Delete(i) }, func() { n.Elems = append(n.Elems[:i], n.Elems[i+1:]...) })
+	}
+	if n.IsObj {
+		o := n.object()
+		setNew := func(i int) bool {
+			key := "burst" + strconv.Itoa(i)
+			mv := mInt(i)
+			return step("Set", func() any { return o.Set(key, mv.goValue()) }, func() { n.Fields[key] = mv })
+		}
+		unsetOne := func() bool {
+			ks := n.keys()
+			if len(ks) == 0 {
+				return false
+			}
+			key := ks[h.d.Draw("burst-key", len(ks))]
+			return step("Unset", func() any { return o.Unset(key) }, func() { delete(n.Fields, key) })
+		}
+		switch kind {
+		case "Set-new-keys":
+			for i := 0; i < m && len(n.Fields) < 220; i++ {
+				if !setNew(i) {
+					return
+				}
+			}
+		case "Unset-one-by-one":
+			for i := 0; i < m; i++ {
+				if !unsetOne() {
+					break
+				}
+			}
+		case "Set-then-Unset":
+			for i := 0; i < m && len(n.Fields) < 220; i++ {
+				if !setNew(i) {
+					return
+				}
+			}
+			for i := 0; i < m+h.d.Draw("burst-extra", 8); i++ {
+				if !unsetOne() {
+					break
+				}
+			}
+		case "Unset-pairs":
+			for i := 0; i < m && len(n.Fields) < 220; i++ {
+				if !setNew(i) {
+					return
+				}
+			}
+			// removals in multi-key calls (present keys, sometimes a missing one in between)
+			for len(n.Fields) > 0 && !h.dead {
+				ks := n.keys()
+				k := 2 + h.d.Draw("burst-unset-k", 3)
+				var keys []string
+				for j := 0; j < k && j < len(ks); j++ {
+					keys = append(keys, ks[(h.d.Draw("burst-key", len(ks))+j)%len(ks)])
+				}
+				if h.d.Draw("burst-missing", 4) == 0 {
+					keys = append(keys[:1], append([]string{"no-such-key"}, keys[1:]...)...)
+				}
+				if !step("Unset", func() any { return o.Unset(keys...) }, func() {
+					for _, key := range keys {
+						delete(n.Fields, key)
+					}
+				}) {
+					return
+				}
+			}
+		}
+		h.curOp = "Burst"
+		h.heapCheck()
+		return
+	}
+	switch kind {
+	case "Add":
+		for i := 0; i < m && len(n.Elems) < 400; i++ {
+			if !addOne(i) {
+				return
+			}
+		}
+	case "Pop":
+		for i := 0; i < m && len(n.Elems) > 0; i++ {
+			if !step("Pop", func() any { return n.list().Pop() }, func() { n.Elems = n.Elems[:len(n.Elems)-1] }) {
+				return
+			}
+		}
+	case "Delete-first":
+		for i := 0; i < m; i++ {
+			if !delAt(func() int { return 0 }) {
+				break
+			}
+		}
+	case "Delete-middle":
+		for i := 0; i < m; i++ {
+			if !delAt(func() int { return h.d.Draw("burst-idx", len(n.Elems)) }) {
+				break
+			}
+		}
+	case "Insert-front":
+		for i := 0; i < m && len(n.Elems) < 400; i++ {
+			mv := mInt(2000 + i)
+			if !step("Insert", func() any { return n.list().Insert(0, mv.goValue()) }, func() { n.Elems = append([]MVal{mv}, n.Elems...) }) {
+				return
+			}
+		}
+	case "Add-then-drain", "Add-then-Delete-first":
+		for i := 0; i < m && len(n.Elems) < 400; i++ {
+			if !addOne(i) {
+				return
+			}
+		}
+		keep := h.d.Draw("burst-keep", 6)
+		for len(n.Elems) > keep && !h.dead {
+			if kind == "Add-then-drain" {
+				switch h.d.Draw("burst-drain", 3) {
+				case 0:
+					if !step("Pop", func() any { return n.list().Pop() }, func() { n.Elems = n.Elems[:len(n.Elems)-1] }) {
+						return
+					}
+				default:
+					if !delAt(func() int { return h.d.Draw("burst-idx", len(n.Elems)) }) {
+						return
+					}
+				}
+			} else if !delAt(func() int { return 0 }) {
+				return
+			}
+		}
+	}
+	h.curOp = "Burst"
+	h.heapCheck()
 }
